@@ -208,6 +208,13 @@ def gen_api_table(ctx, contents):
             # characters < bytes: char count below n may still exceed n in bytes
             k = max(1, n // 2 + rng.randint(0, 1))
             table[c] = 'é' * k
+    # minify is not idempotent in general: some results can be minified further
+    for c in list(table):
+        out = table[c]
+        if out is not None and len(out) > 1 and rng.random() < 0.5:
+            again = out.encode('utf-8')
+            if again not in table:
+                table[again] = 'i' * (len(again) - 1)
     return table
 
 
@@ -228,7 +235,8 @@ def gen_scenario(ctx):
         k = rng.randint(1, 3)
         pool = paths + dirs + (['missing.py'] if rng.random() < 0.15 else [])
         args = [rng.choice(pool) for _ in range(k)]
-        args = list(dict.fromkeys(args))
+        if rng.random() < 0.6:
+            args = list(dict.fromkeys(args))       # otherwise: the same path may be given twice, or a directory and a file inside it
         args.insert(rng.randint(0, len(args)), rng.choice(['--in-place', '-i']))
     elif mode == 'output':
         args = [rng.choice(paths), rng.choice(['--output', '-o']), 'out.min.py']
